@@ -59,6 +59,7 @@ class Laws:
         self.cfg = cfg
         self.cs, self.sep, self.alt, self.win = cfg
         self.p = make_provider(*cfg)
+        self.twin = make_provider(True, cfg[1], cfg[2], cfg[3])        # same conventions, case-sensitive: canonical forms
         self.n = 0
         self.nontrivial = 0
         self.fail = []
@@ -95,6 +96,24 @@ class Laws:
                     self.bad("L6 case-sensitive provider matched case variants", s, sw)
                 if not self.cs and not m:
                     self.bad("L6 case-insensitive provider did not match case variants", s, sw)
+            # L3b: a path equal to the folder (under the provider's own equality) is "inside" it with an empty relative
+            # part, never strictly inside; canonical separators, any letter case the provider considers equal
+            canon = self.twin.normalize_path(s)
+            for a in {canon, canon.swapcase(), canon.lower()}:
+                if p.paths_match(a, canon):
+                    self.n += 2
+                    r0 = p.is_subpath(a, canon)
+                    if r0 != self.sep:
+                        self.bad("L3b equal path not reported as (non-strictly) inside", a, canon, r0)
+                    if p.is_subpath(a, canon, strict=True):
+                        self.bad("L3b equal path reported as strictly inside", a, canon)
+                    if canon != self.sep:
+                        try:
+                            rp = p.replace_path(canon, a, self.sep + "g")
+                            if not p.paths_match(rp, self.sep + "g"):
+                                self.bad("L5 replace_path of the folder itself", a, canon, rp)
+                        except ValueError as e:
+                            self.bad("L5 replace_path refused an equal path", a, canon, str(e)[:60])
             if not self.cs and has_name(s, self.sep, self.alt):
                 self.n += 1
                 leaf = p.basename(p.normalize_path_separators(s))
@@ -152,6 +171,13 @@ def translate_laws(cfg_l, cfg_r, rels, acc_fail, counter):
     for rl, rr in ((pl.sep + "local", pr.sep + "remote"), (pl.sep + "a" + pl.sep + "b", pr.sep + "r")):
         cs = cloudsync.CloudSync((pl, pr), (rl, rr), storage=None, sleep=None)
         try:
+            # the roots themselves, in every letter case the provider considers equal, are inside the roots
+            for spelling in {rl, rl.swapcase(), rl.upper()}:
+                if pl.paths_match(spelling, rl):
+                    counter[0] += 1
+                    there = cs.translate(1, spelling)
+                    if there is None or not pr.paths_match(there, rr):
+                        acc_fail.append(("L7 root spelling does not translate to the other root", cfg_l, cfg_r, repr(spelling), repr(there)))
             for r in rels:
                 counter[0] += 2
                 lp = pl.join(rl, r.replace(pr.sep, pl.sep) if pl.sep != pr.sep else r)
